@@ -151,6 +151,55 @@ type Op struct {
 	Will  *ref.Will   // "will"
 	Fs    []ref.Filter
 	Arena *FilterArena // "filters" on SUBSCRIBE: take the argument slice from this arena
+	Arg   []byte       // when set: the memory actually handed to the library for B (same content; see ByteArena)
+}
+
+func (o Op) arg() []byte {
+	if o.Arg != nil {
+		return o.Arg
+	}
+	return o.B
+}
+
+// ByteArena is where a program keeps the byte-slice arguments it passes to
+// setters: one backing array, values next to each other, and equal values
+// stored once - so two setter calls (on one packet or on two) can be handed the
+// SAME memory. The library keeps such slices without copying; it must therefore
+// never write through them. The model keeps its own copies (Op.B).
+type ByteArena struct {
+	buf  []byte
+	seen map[string][]byte
+}
+
+func NewByteArena() *ByteArena {
+	return &ByteArena{buf: make([]byte, 0, 1<<16), seen: map[string][]byte{}}
+}
+
+// Place sets o.Arg for the kinds whose argument reaches the library as []byte.
+func (ar *ByteArena) Place(o *Op) {
+	switch o.Kind {
+	case "payload", "password":
+	case "prop":
+		if d := ref.Lookup(o.ID); d == nil || d.Kind != ref.KBinary {
+			return
+		}
+	default:
+		return
+	}
+	if len(o.B) == 0 {
+		return
+	}
+	if old, ok := ar.seen[string(o.B)]; ok {
+		o.Arg = old
+		return
+	}
+	if len(ar.buf)+len(o.B) > cap(ar.buf) {
+		return // does not fit: passed as it is
+	}
+	n := len(ar.buf)
+	ar.buf = append(ar.buf, o.B...)
+	o.Arg = ar.buf[n:len(ar.buf):len(ar.buf)]
+	ar.seen[string(o.B)] = o.Arg
 }
 
 func (o Op) String() string {
@@ -432,7 +481,7 @@ func Apply(p mq.Packet, o Op) error {
 			}
 			return bad()
 		}
-		if !setProp(p, o.ID, o.N, o.B, false) {
+		if !setProp(p, o.ID, o.N, o.arg(), false) {
 			return fmt.Errorf("drv: %T has no setter for property 0x%02x", p, o.ID)
 		}
 	case "userprops":
@@ -475,7 +524,7 @@ func Apply(p mq.Packet, o Op) error {
 	case "topic":
 		p.(*mq.Publish).SetTopicName(string(o.B))
 	case "payload":
-		p.(*mq.Publish).SetPayload(o.B)
+		p.(*mq.Publish).SetPayload(o.arg())
 	case "qos":
 		p.(*mq.Publish).SetQoS(uint8(o.N))
 	case "dup":
@@ -491,7 +540,7 @@ func Apply(p mq.Packet, o Op) error {
 	case "username":
 		p.(*mq.Connect).SetUsername(string(o.B))
 	case "password":
-		p.(*mq.Connect).SetPassword(o.B)
+		p.(*mq.Connect).SetPassword(o.arg())
 	case "protoname":
 		p.(*mq.Connect).SetProtocolName(string(o.B))
 	case "protover":
